@@ -1,0 +1,24 @@
+//go:build !verif
+// +build !verif
+
+package simhook
+
+import "io"
+
+// Enabled reports whether the simulator seams are compiled in.
+const Enabled = false
+
+// Yield is a scheduling point of the simulator (no-op without the verif tag).
+func Yield(site int, key uintptr) {}
+
+// Acquire tells the lock model that the caller is about to take a real lock (no-op).
+func Acquire(lock int) {}
+
+// Release tells the lock model that the caller has released a real lock (no-op).
+func Release(lock int) {}
+
+// Fault lets the simulator fail a system call (always nil without the verif tag).
+func Fault(site int, key, arg uintptr) error { return nil }
+
+// WrapReaderAt lets the simulator observe and fail reads (identity without the verif tag).
+func WrapReaderAt(r io.ReaderAt) io.ReaderAt { return r }
